@@ -46,14 +46,15 @@ Items == IF Big THEN {TCookie, Tcookie, TCOOKIE, TAccept} ELSE {TCookie, Tcookie
 SetOps == {[op |-> o, x |-> x] : o \in {"add", "remove", "discard"}, x \in Items} \cup {[op |-> "clear", x |-> <<>>]}
 WATypes == {Tbasic, Tdigest}
 WAKeys == {Trealm}
-WAVals == IF Big THEN {Some(Tx), Some(Tab), None} ELSE {Some(Tab), None}
+WAVals == IF Big THEN {Some(Tx), Some(Tab), Some(<<>>), None} ELSE {Some(<<>>), None}
 WAOps == {[op |-> "set_type", x |-> x, y |-> None] : x \in WATypes}
-         \cup {[op |-> "set_token", x |-> <<>>, y |-> y] : y \in {None, Some(Ttok)}}
+         \cup {[op |-> "set_token", x |-> <<>>, y |-> y] : y \in (IF Big THEN {None, Some(Ttok), Some(<<>>)} ELSE {None, Some(<<>>)})}
          \cup {[op |-> o, x |-> k, y |-> y] : o \in (IF Big THEN {"setitem", "setattr"} ELSE {"setitem"}), k \in WAKeys, y \in WAVals}
          \cup {[op |-> "delitem", x |-> k, y |-> None] : k \in WAKeys}
 CCTags == IF Big THEN {"max_age", "no_cache", "public"} ELSE {"max_age", "public"}
-CCVals == {TV("none", 0, <<>>), TV("true", 0, <<>>), TV("int", 0, <<>>), TV("str", 0, TXY)}
-          \cup (IF Big THEN {TV("false", 0, <<>>), TV("int", 5, <<>>)} ELSE {})
+\* 0 and the empty string are values, not "unset"
+CCVals == {TV("none", 0, <<>>), TV("true", 0, <<>>), TV("int", 0, <<>>), TV("str", 0, TXY), TV("str", 0, <<>>)}
+          \cup (IF Big THEN {TV("false", 0, <<>>)} ELSE {})
 CCOps == {[op |-> "cc_set", tag |-> g, tv |-> v] : g \in CCTags, v \in CCVals} \cup {[op |-> "cc_del", tag |-> g, tv |-> TV("none", 0, <<>>)] : g \in CCTags}
 Ops == CASE K = "set" -> SetOps [] K = "wa" -> WAOps [] K = "cc" -> CCOps
 \* abstract values a direct edit may install (canonical text = Ser(value)); None = delete the header
